@@ -239,12 +239,25 @@ class UdpclWorld(object):
             self.emit('SendDone', x=str(ev.args[0]))
         if who == 'R' and ev.name == 'recv_bundle_finished' and not self.comp:
             bid = str(ev.args[0])
+            self.emit('Announced', bid=bid)
+            self.emit('RxQueue', ids=sorted(str(x) for x in self.receiver.recv_bundle_get_queue()))
             dbus.RECORDER.enabled = False
             try:
                 data = bytes(self.receiver.recv_bundle_pop_data(bid))
             finally:
                 dbus.RECORDER.enabled = True
             self.emit('Queued', bid=bid, len=len(data), dig=dig(data))
+            self.emit('Popped', bid=bid)
+            self.emit('RxQueue', ids=sorted(str(x) for x in self.receiver.recv_bundle_get_queue()))
+            # popping the same transfer again must not return data a second time
+            dbus.RECORDER.enabled = False
+            try:
+                again = self.receiver.recv_bundle_pop_data(bid)
+                self.emit('PopAgain', bid=bid, gave_data=True, len=len(bytes(again)))
+            except Exception:
+                self.emit('PopAgain', bid=bid, gave_data=False, len=0)
+            finally:
+                dbus.RECORDER.enabled = True
 
     def _on_datagram(self, src, dst, data):
         if src[0] != SENDER[0]:
